@@ -881,16 +881,28 @@ func (fv *FV) execFor(st *State, x *ast.ForStmt, label string) *State {
 	fv.ghostAt(body, fmt.Sprintf("loop %d head", ord), x.Pos())
 	end := fv.execBlock(body, x.Body.List)
 	fv.ctx = fv.ctx[:len(fv.ctx)-1]
-	end = fv.merge(append([]*State{end}, lc.continues...)...)
-	if end != nil {
+	// every way of reaching the end of an iteration (falling off the body, each `continue`) is checked on its own:
+	// merging them first only hands the solver a case split it has to undo
+	for k, end := range append([]*State{end}, lc.continues...) {
+		if end == nil {
+			continue
+		}
+		phase := "preserve"
+		if k > 0 {
+			phase = fmt.Sprintf("preserve@continue%d", k)
+		}
 		if x.Post != nil {
 			end = fv.execStmt(end, x.Post, "")
 		}
 		fv.ghostAt(end, fmt.Sprintf("loop %d end", ord), x.Pos())
-		fv.checkInvariants(end, ls, ord, "preserve", x.Pos(), scopePos)
+		fv.checkInvariants(end, ls, ord, phase, x.Pos(), scopePos)
 		if variant0 != "" {
 			v1 := fv.spec(fv.localEnv(end, scopePos), ls.Decreases).S
-			fv.oblige(end, fmt.Sprintf("loop%d.decreases", ord), and(app("<", v1, variant0), app(">=", variant0, "0")), "loop variant decreases and is bounded below: "+ls.DecSrc, nil, x.Pos())
+			name := fmt.Sprintf("loop%d.decreases", ord)
+			if k > 0 {
+				name += fmt.Sprintf("@continue%d", k)
+			}
+			fv.oblige(end, name, and(app("<", v1, variant0), app(">=", variant0, "0")), "loop variant decreases and is bounded below: "+ls.DecSrc, nil, x.Pos())
 		}
 	}
 	after := fv.merge(append([]*State{exit}, lc.breaks...)...)
@@ -1042,15 +1054,21 @@ func (fv *FV) execRange(st *State, x *ast.RangeStmt, label string) *State {
 	fv.ghostAt(body, fmt.Sprintf("loop %d head", ord), x.Pos())
 	end := fv.execBlock(body, x.Body.List)
 	fv.ctx = fv.ctx[:len(fv.ctx)-1]
-	end = fv.merge(append([]*State{end}, lc.continues...)...)
-	if end != nil {
+	for k, end := range append([]*State{end}, lc.continues...) {
+		if end == nil {
+			continue
+		}
+		phase := "preserve"
+		if k > 0 {
+			phase = fmt.Sprintf("preserve@continue%d", k)
+		}
 		next := Term{S: app("+", it.S, "1"), Sort: sInt, T: types.Typ[types.Int]}
 		end.ghost[itName] = next
 		if keyObj != nil {
 			end.vars[keyObj] = next
 		}
 		fv.ghostAt(end, fmt.Sprintf("loop %d end", ord), x.Pos())
-		fv.checkInvariants(end, ls, ord, "preserve", x.Pos(), scopePos)
+		fv.checkInvariants(end, ls, ord, phase, x.Pos(), scopePos)
 	}
 	// after the loop the range variables are out of scope
 	if exit != nil {
